@@ -1,4 +1,5 @@
 """C20 — each input file contributes the HDU / WCS key the user selected (E1: CrossHair on the real collection code)."""
+from vlib.core import soft_attr as core_u
 import os
 
 import toasty.collection as tc
@@ -11,7 +12,7 @@ THOROUGH = QUICK + [("chk_agree_list_index_4files", 1500), ("chk_scan_list_both_
 
 
 def check(run):
-    run.uses(tc.SimpleFitsCollection._scan_hdus, tc.SimpleFitsCollection._load, tc.SimpleFitsCollection.export_simple,
+    run.uses(core_u(tc.SimpleFitsCollection, "_scan_hdus"), core_u(tc.SimpleFitsCollection, "_load"), tc.SimpleFitsCollection.export_simple,
              tc.SimpleFitsCollection.descriptions, tc.SimpleFitsCollection.images, tc.load,
              tc.CollectionLoader.create_from_args, tc.CollectionLoader.load_paths)
     run.bound(files="<= 3 positions, the same file possibly listed several times", hdus_per_file="3 (4 for the first-image search, symbolic kinds)", selection="scalar / per-file list / None, symbolic values",
